@@ -12,7 +12,22 @@ TECHNIQUE = 'contract-based deductive verification + bounded aggregation stand-i
 DESIGN_REF = 'DESIGN.md section 3 / C04'
 
 
+# round 3 (m1): replay of the static obligation `locals-assigned-before-use` of the two entry points = the flag-combination harness
+_ENTRY_REPLAY = """
+import subprocess, sys, json
+r = subprocess.run([sys.executable, '/verif/bounded/m1_entrypoints.py'], capture_output=True, text=True, cwd='/tmp')
+d = json.loads(r.stdout.strip().splitlines()[-1])
+violated = bool(d['failures'])
+detail = str([(f.get('check'), f.get('case'), f.get('got')) for f in d['failures'][:3]])
+"""
+REPLAYS = {f'C04:static:biogeme.BIOGEME.{f}:locals-assigned-before-use': _ENTRY_REPLAY for f in ('calculate_likelihood', 'calculate_likelihood_and_derivatives')}
+REPLAYS['*'] = _ENTRY_REPLAY
+
+
 def extra(tier, seed):
     from pyvc.bounded import run_native
-    return [run_native('C04:bounded:aggregation', 'c04_aggregation.py', [tier, str(seed)],
+    from contracts import m1_static
+    return m1_static.extras('C04') + [
+            run_native('C04:bounded:entry-points', 'm1_entrypoints.py', [], bound='1 cross-sectional model (2 free parameters, 4 rows) x scaled x hessian x bhhh x save_iterations; wrong lengths 0/1/3 -> ValueError; batch -> BiogemeError; 1 panel model (2 individuals) whose individual map is made stale after construction; debug logging on'),
+            run_native('C04:bounded:aggregation', 'c04_aggregation.py', [tier, str(seed)],
                        bound='see the harness bound string: logit/regression scenarios, weights incl. zeros, threads 1/2/3/7/N+3, all permutations of <= 4 rows, partitions', timeout=1500)]
